@@ -519,6 +519,7 @@ def run_case(case):
                 o = "ret" if e is None else classify(e)[1]
             finals.append([tid, o, t.cancelling()])
         sets = [[a.idx, sorted(tid_of[t] for t in a._tasks), a.is_running] for a in actors]
+        log_len = len(log)        # everything after this point is the harness's own teardown, not part of the schedule
         for t in harness_tasks:
             if not t.done():
                 t.cancel()
@@ -530,6 +531,7 @@ def run_case(case):
         for t in list(harness_tasks) + list(task_of.values()):
             if t.done() and not t.cancelled():
                 t.exception()       # mark retrieved
+        del log[log_len:]
         return {"finals": finals, "sets": sets, "hung": hung}
 
     from frequenz.sdk.actor import Actor as _A
